@@ -479,12 +479,55 @@ func (x *bInterp) step(fr *bframe, st *bstate, in ssa.Instruction) {
 		o.t = elem
 		fr.env[ins] = &bvPtr{obj: id}
 	case *ssa.Store:
-		x.store(st, x.eval(fr, st, ins.Addr), x.eval(fr, st, ins.Val))
+		av, vv := x.eval(fr, st, ins.Addr), x.eval(fr, st, ins.Val)
+		// a struct VALUE is handed around as the address of its fields: storing it copies the fields
+		// (value receivers and by-value parameters are spilled this way)
+		if _, isStruct := ins.Val.Type().Underlying().(*types.Struct); isStruct {
+			if dp, okD := av.(*bvPtr); okD {
+				if sp, okS := vv.(*bvPtr); okS {
+					so, do := st.mem[sp.obj], st.mem[dp.obj]
+					if so != nil && do != nil && so.f != nil {
+						if do.f == nil {
+							do.f = map[string]bv{}
+						}
+						copied := false
+						for k, v := range so.f {
+							if strings.HasPrefix(k, sp.path+".") || strings.HasPrefix(k, sp.path+"[") {
+								do.f[dp.path+k[len(sp.path):]] = v
+								copied = true
+							}
+						}
+						if copied {
+							return
+						}
+					}
+				}
+			}
+		}
+		x.store(st, av, vv)
 	case *ssa.UnOp:
 		v := x.eval(fr, st, ins.X)
 		switch ins.Op {
 		case token.MUL:
-			fr.env[ins] = x.load(st, v)
+			lv := x.load(st, v)
+			// a package-level error variable (io.EOF, ErrInvalidIRI …) is a non-nil sentinel, as in E1
+			if g, isG := ins.X.(*ssa.Global); isG && isErrorType(ins.Type()) {
+				_ = g
+				st.next++
+				lv = &bvErr{known: true, isNil: false, id: st.next}
+			}
+			// a never-written slot of a local is Go's zero value (a cursor's offset starts at 0)
+			if u, isU := lv.(*bvUnknown); isU && strings.HasPrefix(u.why, "uninitialised") {
+				if bt, isB := ins.Type().Underlying().(*types.Basic); isB {
+					switch {
+					case bt.Info()&types.IsInteger != 0:
+						lv = &bvInt{known: true, k: 0}
+					case bt.Info()&types.IsBoolean != 0:
+						lv = &bvBool{known: true, v: false}
+					}
+				}
+			}
+			fr.env[ins] = lv
 		case token.NOT:
 			if b, ok := v.(*bvBool); ok {
 				if b.known {
